@@ -25,6 +25,7 @@ import (
 	"crypto/sha256"
 	"encoding/json"
 	"fmt"
+	"os"
 	"sort"
 	"strings"
 
@@ -808,6 +809,41 @@ func c12CheckE2E(ctx *Ctx, idx int, cs *c12E2E) {
 		fail("response differs from the reference evaluator's answer (all places of one entity agree): got " + got + " want " + w)
 		return
 	}
+	// ---- the bound counts calls, not successful calls: with the first HTTP call to one service cut
+	// at transport level AFTER the service received it (io.EOF, no HTTP answer), no service is
+	// called more often than its plan levels allow — a lost answer is reported, not asked for again
+	if len(calls) > 0 {
+		victim := calls[idx%len(calls)].Service
+		f.Services[victim].Fault = func(c *fed.Call) *fed.FaultAction {
+			if c.HTTPCall == 0 {
+				return &fed.FaultAction{Kind: "eof"}
+			}
+			return nil
+		}
+		f.ResetLogs()
+		fed.Do(gw, cs.Query, cs.Vars, cs.OpName)
+		f.Services[victim].Fault = nil
+		http2, reqs2 := map[int]map[int]bool{}, map[int]int{}
+		for _, c := range f.AllCalls() {
+			if http2[c.Service] == nil {
+				http2[c.Service] = map[int]bool{}
+			}
+			http2[c.Service][c.HTTPCall] = true
+			reqs2[c.Service]++
+		}
+		ctx.Rep.Count("e2e: re-run with the first call to one service cut after receipt")
+		for sv, m := range http2 {
+			u := fed.URL(sv)
+			allowed := bound[u]
+			if cs.MaxBatch > 0 && cs.MaxBatch < 100000 {
+				allowed += reqs2[sv] / cs.MaxBatch
+			}
+			if len(m) > allowed {
+				fail(fmt.Sprintf("with the first call to %s cut after receipt (io.EOF): %d HTTP calls to %s but the service appears at %d plan level(s) (%d sub-requests, max batch %d)", fed.URL(victim), len(m), u, bound[u], reqs2[sv], cs.MaxBatch))
+				return
+			}
+		}
+	}
 	// ---- model
 	if ctx.Driver == nil {
 		return
@@ -1085,5 +1121,89 @@ func runC12(ctx *Ctx) error {
 			idx++
 		}
 	}
+	// ---- directed: three plan levels below a list that holds one entity twice — the level-1 lookup of
+	// that entity is sent once and fanned out to its places; the level-2 step then stitches a LIST OF
+	// SCALARS into an object every place received (places must not share what they were handed)
+	nDir := 10
+	if ctx.Thorough() {
+		nDir = 150
+	}
+	plainKept := 0
+	for k, tries := 0, 0; k < nDir && tries < nDir*400; tries++ {
+		r := ctx.Rand.Fork()
+		cs := c12E2E{Stream: "e2e", FedSeed: r.U64(), MaxList: hx.Pick(r, []int{4, 30}), MaxBatch: 100000, Hint: r.Chance(1, 2), keepSingleLevel: 1}
+		f, err := c12BuildFed(&cs)
+		if err != nil {
+			continue
+		}
+		q, embedded := c12DeepDedupQuery(f)
+		if q == "" || (!embedded && plainKept >= 3) {
+			continue
+		}
+		if !embedded {
+			plainKept++
+		}
+		cs.Query = q
+		if os.Getenv("VH_DEBUG") != "" {
+			b, _ := json.Marshal(cs)
+			fmt.Fprintln(os.Stderr, "directed:", string(b))
+		}
+		ctx.Rep.Count("e2e: directed three-level chain below a repeated entity")
+		c12CheckE2E(ctx, idx, &cs)
+		idx++
+		k++
+	}
 	return nil
+}
+
+// c12DeepDedupQuery: `{ q { f { g } } }` with q a list of Node objects (service A) in which one entity
+// occurs twice, f an object-valued field of another service, g a list of scalars of a third step.
+func c12DeepDedupQuery(f *fed.Fed) (query string, embedded bool) {
+	sp := f.Spec
+	base := func(t string) string { return strings.Trim(t, "[]!") }
+	for _, q := range sp.Query {
+		T := sp.Type(base(q.Type))
+		if T == nil || !T.Node || len(q.Args) > 0 || !strings.HasPrefix(q.Type, "[") {
+			continue
+		}
+		root := f.Data.Roots["Query"][q.Name]
+		seen, repeated := map[string]bool{}, false
+		for _, el := range root.List {
+			if el.Kind == "ref" {
+				if seen[el.Ref] {
+					repeated = true
+				}
+				seen[el.Ref] = true
+			}
+		}
+		if !repeated {
+			continue
+		}
+		for _, ff := range T.Fields {
+			U := sp.Type(base(ff.Type))
+			if U == nil || !U.Node || len(ff.Args) > 0 || ff.Owner == q.Owner {
+				continue
+			}
+			// preferred: g an embedded (non-Node) object that holds the list of scalars — the second place
+			// that receives the level-2 answer finds `g` already there and MERGES into it
+			for _, g := range U.Fields {
+				V := sp.Type(base(g.Type))
+				if len(g.Args) > 0 || g.Owner == ff.Owner || V == nil || V.Node {
+					continue
+				}
+				for _, h := range V.Fields {
+					if len(h.Args) == 0 && strings.HasPrefix(h.Type, "[") && sp.Type(base(h.Type)) == nil && sp.Abstract(base(h.Type)) == nil {
+						return fmt.Sprintf("{ %s { %s { %s { %s } } } }", q.Name, ff.Name, g.Name, h.Name), true
+					}
+				}
+			}
+			for _, g := range U.Fields {
+				if len(g.Args) > 0 || g.Owner == ff.Owner || !strings.HasPrefix(g.Type, "[") || sp.Type(base(g.Type)) != nil || sp.Abstract(base(g.Type)) != nil {
+					continue
+				}
+				return fmt.Sprintf("{ %s { %s { %s } } }", q.Name, ff.Name, g.Name), false
+			}
+		}
+	}
+	return "", false
 }
